@@ -50,7 +50,7 @@ Definition model03 (k : case03) :=
 
 (** learner calls in spawn order: true = gossip verifier call (its error is observable), false = Head() call *)
 Definition call_kinds (l : list (dact * obs)) : list bool :=
-  flat_map (fun p => match fst p with DDeliver _ _ _ => [true] | DHead _ => [false] | _ => [] end) l.
+  flat_map (fun p => match fst p with DDeliver _ _ _ | DDeliverP _ _ _ => [true] | DHead _ => [false] | _ => [] end) l.
 
 Fixpoint res_agree (kinds : list bool) (m i : list N) : bool :=
   match kinds, m, i with
@@ -76,7 +76,7 @@ Definition agree03 (k : case03) : bool :=
 (** every header that occurs anywhere in the case *)
 Definition act_hdrs (a : dact) : list hdr :=
   match a with
-  | DDeliver h _ (Bif pr _) => h :: pr
+  | DDeliver h _ (Bif pr _) | DDeliverP h _ (Bif pr _) => h :: pr
   | DHead (Some h) => [h]
   | DAnswer (ARaw l) => l
   | _ => []
@@ -103,7 +103,7 @@ Fixpoint allowed_ids (res : list N) (i : nat) (l : list (dact * obs)) : list N :
   | [] => []
   | (a, _) :: r =>
     match a with
-    | DDeliver h _ (Bif pr _) =>
+    | DDeliver h _ (Bif pr _) | DDeliverP h _ (Bif pr _) =>
       (if nth i res 0 =? 2 then [] else [h_id h]) ++ map h_id pr ++ allowed_ids res (S i) r
     | DHead (Some h) => h_id h :: allowed_ids res (S i) r
     | DHead None => allowed_ids res (S i) r
@@ -124,7 +124,7 @@ Fixpoint walk03 (k : case03) (prev : obs) (l : list (dact * obs)) : bool :=
     (* Head() of the store and the sync numbering never go back *)
     (o_head prev <=? o_head o) && (o_id prev <=? o_id o)
     && (match a with
-        | DDeliver h now b =>
+        | DDeliver h now b | DDeliverP h now b =>
           if o_ret o =? 3 then true                    (* parked behind incomingMu / the gate: decided later *)
           else
             (* the verifier answers what header.Verify against the subjective head prescribes *)
@@ -149,6 +149,10 @@ Definition ok03 (k : case03) : bool :=
         (* at the end (all gates released): the Store serves exactly tail..head, and the datastore holds no other height *)
         consecutive_probe (q_tail k) (o_head o) (q_probe k)
         && list_eqb N.eqb (q_dump k) (map fst (q_probe k))
+        (* quiescent (nothing outstanding, every call returned) and the last attempt did not fail: no head is left
+           behind in pending, in particular none below the store head - the subjective head is the store head *)
+        && (if isSome (o_req o) || o_err o || existsb (N.eqb 3) (q_results k) then true
+            else (o_local o =? o_height o) && (o_height o <=? o_head o))
       | None => true
       end)
   (* only allowed headers are stored *)
